@@ -12,6 +12,7 @@ import (
 	"fmt"
 	"os"
 	"os/exec"
+	"path/filepath"
 	"runtime"
 	"runtime/debug"
 	"sort"
@@ -65,13 +66,15 @@ type doneLine struct {
 }
 
 type summaryLine struct {
-	T        string                      `json:"t"`
-	Runs     int                         `json:"runs"`
-	Counters map[string]int64            `json:"counters"`
-	Probes   map[string]int64            `json:"probes"`
-	Tallies  map[string]map[string]int64 `json:"tallies"`
-	Pairs    []string                    `json:"switch_pairs"`
-	Race     bool                        `json:"race_build"`
+	T         string                      `json:"t"`
+	Runs      int                         `json:"runs"`
+	Counters  map[string]int64            `json:"counters"`
+	Probes    map[string]int64            `json:"probes"`
+	Tallies   map[string]map[string]int64 `json:"tallies"`
+	Pairs     []string                    `json:"switch_pairs"`
+	Race      bool                        `json:"race_build"`
+	Executed  []int                       `json:"points_executed"`
+	Preempted []int                       `json:"points_preempted"`
 }
 
 type replayFile struct {
@@ -121,6 +124,11 @@ func main() {
 		out.WriteByte('\n')
 	}
 
+	var pointNames []string
+	if data, err := os.ReadFile(filepath.Join(filepath.Dir(os.Args[0]), "points.json")); err == nil {
+		json.Unmarshal(data, &pointNames)
+	}
+	var executed, preempted []bool
 	var counters [simrt.NumCounters]int64
 	var probes [numProbes]int64
 	var pairs [simrt.MaxSites][simrt.MaxSites]bool
@@ -149,6 +157,7 @@ func main() {
 		sim.Passthrough = *lane == "real"
 		sim.MaxSteps = b.MaxSteps
 		sim.SiteNames = siteNames[:]
+		sim.PointNames = pointNames
 		rc := &runCtx{prop: *prop, lane: *lane, b: b, prog: prog, sim: sim, probes: &probes, tally: tally}
 		racesBefore := simrt.RaceErrors()
 		simrt.FatalHook = func(msg string) {
@@ -194,6 +203,7 @@ func main() {
 		for i := range counters {
 			counters[i] += sim.Counters[i]
 		}
+		executed, preempted = orBits(executed, sim.Executed), orBits(preempted, sim.Preempted)
 		for i := range pairs {
 			for j := range pairs[i] {
 				if sim.SwitchPairs[i][j] {
@@ -273,6 +283,7 @@ func main() {
 		}
 	}
 	sort.Strings(s.Pairs)
+	s.Executed, s.Preempted = bitList(executed), bitList(preempted)
 	emit(s)
 }
 
@@ -365,4 +376,26 @@ func siteIndex(name string) int {
 		}
 	}
 	return -1
+}
+
+func orBits(a, b []bool) []bool {
+	if len(b) > len(a) {
+		a = append(a, make([]bool, len(b)-len(a))...)
+	}
+	for i, v := range b {
+		if v {
+			a[i] = true
+		}
+	}
+	return a
+}
+
+func bitList(a []bool) []int {
+	var l []int
+	for i, v := range a {
+		if v {
+			l = append(l, i)
+		}
+	}
+	return l
 }
